@@ -400,9 +400,11 @@ func c11Exec(raw json.RawMessage, res *RunResult) {
 			key = append(key, t.Cmds[j].Src)
 			dg.Add("task", fmt.Sprint(i), fmt.Sprint(j), b.Key())
 			if b.Err != "" {
-				wording := t.Cmds[j].Src + t.Cfg.DefaultSide
-				if usesBrokenBody(wording) {
-					wording = brokenSnapshot // the quoted line comes from a restored body
+				// what a message may quote: the command, the default-sides text, and - when the command reads a
+				// restored body that does not parse - the snapshot that holds it
+				wording := t.Cmds[j].Src + "\n" + t.Cfg.DefaultSide
+				if usesBrokenBody(t.Cmds[j].Src) {
+					wording += "\n" + brokenSnapshot
 				}
 				if ok, why := errorLanguageOKFor(b.Err, lang, wording); !ok {
 					res.Violate("lang-leak", "task %d (language %d at this command) got an error text in another language under the schedule: %s\n  src=%q\n  text=%q", i, lang, why, t.Cmds[j].Src, b.Err)
